@@ -20,6 +20,32 @@ pub const MINIMUM: u32 = 1018;
 /// peer into a spurious transport error; only a genuine hang costs this much
 pub const IO_TIMEOUT: Duration = Duration::from_millis(30000);
 
+
+/// Strings that occur in almost every case (the UIDs of the bounded universe, every registry UID, their
+/// NUL-padded forms, the usual AE titles): printed as `(u k)`, an index into the table `upool` that
+/// `tables` writes into Gen/GenTsSupport.v from this very list, instead of a code-point list.
+/// (coqc spends its time parsing literals: this makes a shard several times smaller.)
+pub fn pool() -> &'static (Vec<String>, std::collections::HashMap<String, usize>) {
+    use dicom_transfer_syntax_registry::TransferSyntaxRegistry;
+    static POOL: std::sync::OnceLock<(Vec<String>, std::collections::HashMap<String, usize>)> = std::sync::OnceLock::new();
+    POOL.get_or_init(|| {
+        let mut uids: Vec<String> = vec![APP_CTX.into(), ILE.into(), ELE.into(), "1.2.840.10008.1.1".into(), "1.2.840.10008.5.1.4.1.1.7".into(),
+            "1.2.840.10008.5.1.4.1.1.2".into(), "1.2.840.10008.5.1.4.1.1.4".into(), "1.2.3.4".into(), "1.2.840.10008.3.1.1.2".into(), "1.2.840.10008.1.2.1.98".into()];
+        let mut reg: Vec<String> = TransferSyntaxRegistry.iter().map(|t| t.uid().to_string()).collect();
+        reg.sort();
+        for u in reg { if !uids.contains(&u) { uids.push(u); } }
+        let mut v: Vec<String> = vec![];
+        for u in &uids { v.push(u.clone()); v.push(format!("{u}\0")); }
+        for t in ["THIS-SCP", "SCU", "STORE", "OTHER", "A", "B", "X Y", "this-scp", "STORE-SCU", "ANY-SCP", "A-VERY-LONG-AE-TITLE-X", "A-VERY-LONG-AE-TI"] { v.push(t.into()); }
+        let m = v.iter().enumerate().map(|(i, s)| (s.clone(), i)).collect();
+        (v, m)
+    })
+}
+/// Coq term of a string: pool index when it is a pooled string, code-point list otherwise
+pub fn cs(s: &str) -> String {
+    match pool().1.get(s) { Some(k) => format!("(u {})", k), None => c_str(s) }
+}
+
 /// strip the DICOM UID padding (trailing NULs): the oracle's own notion of "the same UID"
 pub fn strip(u: &str) -> &str { u.trim_end_matches('\0') }
 /// true when the only trailing padding of `u` is NULs (no trailing white space anywhere in the tail)
@@ -38,9 +64,9 @@ impl SCfg {
     pub fn coq(&self) -> String {
         c_tuple(&[
             (if self.access_called { "AcceptCalledAeTitle" } else { "AcceptAny" }).to_string(),
-            c_str(&self.ae_title),
-            c_list(self.abs.iter().map(|s| c_str(s))),
-            c_list(self.ts.iter().map(|s| c_str(s))),
+            cs(&self.ae_title),
+            c_list(self.abs.iter().map(|s| cs(s))),
+            c_list(self.ts.iter().map(|s| cs(s))),
             c_n(self.max_pdu),
             c_bool(self.promiscuous),
         ])
@@ -107,8 +133,8 @@ impl Rq {
         }
     }
     pub fn coq(&self) -> String {
-        format!("(Build_assoc_rq {} {} {} {} {} {})", self.proto, c_str(&self.calling), c_str(&self.called), c_str(&self.app_ctx),
-            c_list(self.pcs.iter().map(|p| format!("Build_pc_proposed {} {} {}", p.id, c_str(&p.abs), c_list(p.ts.iter().map(|t| c_str(t)))))),
+        format!("(Build_assoc_rq {} {} {} {} {} {})", self.proto, cs(&self.calling), cs(&self.called), cs(&self.app_ctx),
+            c_list(self.pcs.iter().map(|p| format!("Build_pc_proposed {} {} {}", p.id, cs(&p.abs), c_list(p.ts.iter().map(|t| cs(t)))))),
             c_list(self.uvars.iter().map(|u| match u { UV::Max(n) => format!("UvMaxLength {}", n), _ => "UvOther".to_string() })))
     }
     pub fn json(&self) -> Value {
@@ -240,10 +266,10 @@ impl Out {
         match self {
             Out::Accept { pcs, peer_max, ac_pcs, ac_max, app_ctx, calling, called } => format!(
                 "(OAccept {} {} {} {} {} {} {})",
-                c_list(pcs.iter().map(|p| format!("Build_pc_negotiated {} {} {} {}", p.0, p.1, c_str(&p.2), c_str(&p.3)))),
+                c_list(pcs.iter().map(|p| format!("Build_pc_negotiated {} {} {} {}", p.0, p.1, cs(&p.2), cs(&p.3)))),
                 peer_max,
-                c_list(ac_pcs.iter().map(|p| format!("Build_pc_result {} {} {}", p.0, p.1, c_str(&p.2)))),
-                ac_max, c_str(app_ctx), c_str(calling), c_str(called)),
+                c_list(ac_pcs.iter().map(|p| format!("Build_pc_result {} {} {}", p.0, p.1, cs(&p.2)))),
+                ac_max, cs(app_ctx), cs(calling), cs(called)),
             Out::Reject(s, r) => format!("(OReject {} {})", s, r),
             Out::ReleaseRP => "OReleaseRP".into(),
             Out::Abort(r, e) => format!("(OAbort {} {})", r, e),
